@@ -45,14 +45,14 @@ Judge(e) ==
             ELSE IF Res.pk = "zero" /\ e.p9 # 0 THEN "p_value.zero"
             ELSE IF v # "SF" /\ e.ret # v THEN "verdict"
             ELSE IF Res.pk = "sf" THEN "EVAL" ELSE "ACCEPT"
-    IN [seq |-> l, clause |-> clause, dof |-> dof, F |-> Res.F, pk |-> Res.pk, v |-> v,
+    IN [seq |-> l, clause |-> clause, dof |-> dof, L |-> L, F |-> Res.F, pk |-> Res.pk, v |-> v,
         feat |-> [all_degenerate |-> dof = 0, zero_cell |-> HasZeroCell(S), yates |-> HasYates(S)]]
 
 \* PC traces: an edge survives in the returned skeleton iff no recorded test on that pair accepted independence
 SkelEdges == {{T.skel[k][1], T.skel[k][2]} : k \in 1..Len(T.skel)}
 SkelOK == \A a, b \in ToSet(T.cols) : a # b =>
              (({a, b} \in SkelEdges) <=> ~\E k \in 1..Len(T.events) : {T.events[k].X, T.events[k].Y} = {a, b} /\ T.events[k].ret = "T")
-Blank(c) == [seq |-> l, clause |-> c, dof |-> 0, F |-> <<>>, pk |-> "", v |-> "", feat |-> <<>>]
+Blank(c) == [seq |-> l, clause |-> c, dof |-> 0, L |-> <<>>, F |-> <<>>, pk |-> "", v |-> "", feat |-> <<>>]
 
 Init == tid \in 1..Len(Traces) /\ l = 1 /\ out = <<>>
 Step == /\ l <= Len(T.events)
